@@ -34,6 +34,11 @@ var verifCancelProgs = []verifCancelProg{
 	{"loop-if-expr", "fn main() {\n  let k = 1;\n  loop { k = if k == 1 { 2 } else { 1 }; }\n}\n", true, true},
 	{"spawn-relay", "fn tick() {\n  spawn tick();\n}\nfn main() {\n  tick();\n}\n", true, false},
 	{"spawn-relay-looping-main", "fn tick() {\n  spawn tick();\n}\nfn main() {\n  tick();\n  loop { }\n}\n", true, false},
+	{"blocked-in-host-function", "fn main() {\n  pause();\n}\n", true, true},
+	{"blocked-in-host-function-inside-try", "fn main() {\n  try { pause(); } catch e { println(\"caught\"); }\n  loop { }\n}\n", true, true},
+	{"two-cores-blocked-in-host-function", "fn w() {\n  pause();\n}\nfn main() {\n  spawn w();\n  pause();\n}\n", true, false},
+	{"three-cores-blocked-in-host-function-inside-try", "fn w() {\n  try { pause(); } catch e { println(\"caught\"); }\n}\nfn main() {\n  spawn w();\n  spawn w();\n  try { pause(); } catch e { println(\"caught\"); }\n}\n", true, false},
+	{"one-core-blocked-one-looping", "fn w() {\n  pause();\n}\nfn main() {\n  spawn w();\n  loop { }\n}\n", true, false},
 	{"spawned-core", "fn w() {\n  loop { }\n}\nfn main() {\n  spawn w();\n  loop { }\n}\n", true, false},
 }
 
